@@ -463,6 +463,16 @@ def fd_cases(tier):
             words = ["fd", flag] + launcher
             cases.append(Case(q(words), words, "fd", "fd | bare launcher, fd appends the found path", " ".join(launcher), truth="expect",
                               expect=[launcher + ["./ITEM"]], stdin=b"", validate=False, plain_inner=False))
+        # a brace that is not one of fd's placeholders ({} {/} {//} {.} {/.}) does not stop fd from appending the path
+        for launcher in (["env", "A={"], ["env", "A={x}"], ["env", "-u", "{"], ["env", "A=}{"], ["env", "A={/x}"], ["nohup", "env", "B={ }"]):
+            words = ["fd", flag] + launcher
+            cases.append(Case(q(words), words, "fd", "fd | launcher with a brace that is no placeholder, fd appends the found path", " ".join(launcher),
+                              truth="expect", expect=[launcher + ["./ITEM"]], stdin=b"", validate=False, plain_inner=False))
+        # ... and each real placeholder, also inside a word, does
+        for ph in ("{}", "{/}", "{//}", "{.}", "{/.}", "x{}y", "--out={.}.bak"):
+            words = ["fd", flag, "env", "A=" + ph]
+            cases.append(Case(q(words), words, "fd", "fd | placeholder inside a word, nothing appended", "env A=" + ph, truth="expect",
+                              expect=[["env", "A=" + ph.replace("{}", "./ITEM")]], stdin=b"", validate=False, plain_inner=False))
     return cases
 
 
